@@ -73,6 +73,9 @@ def correspondence(ctx):
             try:
                 out = ex.stack_sub_trajectories(trj, sub)
                 impl = np.asarray(out).ravel().tolist()
+                # the window axis layout is part of the contract: (number of windows, window length, ...)
+                ctx.compare("stack_sub_trajectories shape = (T - sub_len + 1, sub_len)", list(np.asarray(out).shape), [T - sub + 1, sub],
+                            exact=True, cell=("stack_shape", T, sub))
                 # pytree + trailing axes keep structure
                 tree = {"a": jnp.stack([trj, 10 * trj], axis=-1)}
                 o2 = ex.stack_sub_trajectories(tree, sub)
@@ -177,8 +180,40 @@ def probe_aux_shapes(n, incl, cst):
     return {"ok": bool(ok), "shape": list(got.shape), "max_abs_diff": int(np.max(np.abs(got - want))) if got.shape == want.shape and got.size else 0}
 
 
+def probe_windows(T, sub):
+    """stack_sub_trajectories against naive slicing: window w is trj[w : w + sub_len], for array and pytree leaves of
+    several ranks — shapes included"""
+    ex = _ex()
+    import jax.numpy as jnp
+    base = np.arange(T * 6, dtype=np.int64).reshape(T, 2, 3) * 3 + 1
+    tree = {"a": jnp.asarray(base), "b": (jnp.asarray(base[:, 0, :] * 7), jnp.asarray(base[:, 0, 0] - 5))}
+    got = ex.stack_sub_trajectories(tree, sub)
+    import jax
+    leaves_got = jax.tree_util.tree_leaves(got)
+    leaves_in = jax.tree_util.tree_leaves(tree)
+    bad = []
+    for lg, li in zip(leaves_got, leaves_in):
+        li = np.asarray(li)
+        want = np.stack([li[w:w + sub] for w in range(T - sub + 1)])
+        lg = np.asarray(lg)
+        if lg.shape != want.shape:
+            bad.append(f"shape {lg.shape}, documented {(T - sub + 1, sub) + li.shape[1:]}")
+        elif not np.array_equal(lg, want):
+            bad.append("window contents differ from trj[w:w+sub_len]")
+    return {"ok": not bad, "bad": bad}
+
+
 def oracle(ctx, deep):
     fails = []
+    for T in ([1, 2, 5] if not deep else list(range(1, 9))):
+        for sub in sorted({1, 2, T} if not deep else set(range(1, T + 1))):
+            if sub > T:
+                continue
+            r = probe_windows(T, sub)
+            ctx.count(("oracle_windows", T, sub))
+            if not r["ok"]:
+                fails.append({"key": f"C14:windows:sub_len={'1' if sub == 1 else 'T' if sub == T else 'mid'}", "what": f"stack_sub_trajectories(T={T}, sub_len={sub}) is not the stack of the windows trj[w:w+sub_len]: {r['bad']}",
+                              "probe": "windows", "args": {"T": T, "sub": sub}, "observed": r})
     for n in ([0, 1, 2, 3] if not deep else list(range(0, 7))):
         for incl in (False, True):
             for cst in (False, True):
@@ -212,4 +247,4 @@ def oracle(ctx, deep):
 
 
 def replay(probe, args):
-    return {"naive": probe_naive, "repeated": probe_repeated, "forced": probe_forced, "aux_shapes": probe_aux_shapes}[probe](**args)
+    return {"naive": probe_naive, "repeated": probe_repeated, "forced": probe_forced, "aux_shapes": probe_aux_shapes, "windows": probe_windows}[probe](**args)
